@@ -10,6 +10,8 @@
 From V.lib Require Import Bits Mem Res.
 From V.model Require Import Apu.
 From V.spec Require Import ApuSpec.
+From V.proofs Require ConstsTie.
+From V.gen Require GenConsts.
 From V.proofs Require Import ApuLemmas ApuStatusProofs ApuFreqProofs ApuLengthProofs ApuSampleProofs.
 From Coq Require Import QArith.
 Open Scope N_scope.
@@ -128,3 +130,8 @@ Example C20_example :
   pairs_between 0 4194304 = 44150 /\ sample_due 0 95 = true /\ sample_due 0 96 = false /\
   pace_inv true true (apu_new true) /\ emits (apu_clocks 94 (apu_new true)) = true.
 Proof. vm_compute. repeat split; try reflexivity; discriminate. Qed.
+
+(* the sample period of the model is the constant regenerated from audio.go on this run *)
+Theorem C20_sampler_period_regenerated : V.model.Apu.samplerPeriod = V.gen.GenConsts.samplerPeriod.
+Proof. exact (proj2 V.proofs.ConstsTie.apu_periods_tie). Qed.
+Print Assumptions C20_sampler_period_regenerated.
